@@ -10,7 +10,7 @@ SCALAR_KEYS = ["A", "B", "C"]
 SECTION_KEYS = ["S.X", "S.Y", "S.Z", "S.T.U"]
 LIST_KEYS = ["L.0", "L.1"]
 DISPATCH_KEYS = ["M", "M2"]
-NEVER_KEYS = ["N1", "N2"]  # never mentioned by any generated program
+NEVER_KEYS = ["N1", "N2", "name", "args", "msg"]  # never mentioned by any generated program (three are named like LogRecord attributes)
 WHOLE_KEYS = ["S", "L", "S.T"]  # prefixes of other keys (read as a whole section / list)
 
 SCALARS = [0, 1, 2, True, False, None, "", "a", "b"]
